@@ -138,6 +138,14 @@ var lastSend int64
 func LastClientSend() time.Time { return time.Unix(0, atomic.LoadInt64(&lastSend)) }
 func (c *CliConn) RemoteAddr() net.Addr { return c.raddr }
 
+// CloseWrite half-closes the client's sending direction.
+func (c *CliConn) CloseWrite() error {
+	if hc, ok := c.Conn.(interface{ CloseWrite() error }); ok {
+		return hc.CloseWrite()
+	}
+	return nil
+}
+
 // DialTCP creates an in-memory connection and hands its server end to the
 // dispatcher. local is the honeypot-side address, remote the client's.
 func (l *Listener) DialTCP(local, remote *net.TCPAddr) *CliConn {
